@@ -39,6 +39,9 @@ package websocket
 //@   let id = decoded(msg, hagallpb.EntityDeleteRequest).EntityId
 //@   requires wfHandler(h) && respond != nil
 //@   ensures wfHandler(h)
+//@   modifies {C03} contents(h.currentSession.entities), contents(h.currentParticipant.entityIDs), all contents(map[uint32]*hagallpb.EntityComponent @ models.EntityComponentStore.entityComponents[]), all ghost.*
+//@   allocates
+//@   ensures {C03} forall m: map[uint32]*hagallpb.EntityComponent @ models.EntityComponentStore.entityComponents[] :: joined(h) && (forall t: uint32 :: t in h.currentSession.entityComponents.entityComponents ==> h.currentSession.entityComponents.entityComponents[t] != m) ==> same_contents(m)
 //@   behaviour undecodable:
 //@     assumes !decode_ok(msg)
 //@     ensures {C04} result != nil && unchanged_world()
@@ -68,6 +71,8 @@ package websocket
 //@   property C04
 //@   let req = decoded(msg, hagallpb.Request)
 //@   requires respond != nil
+//@   modifies {C03} all ghost.*
+//@   allocates
 //@   behaviour undecodable:
 //@     assumes !decode_ok(msg)
 //@     ensures result != nil && unchanged_world()
@@ -88,6 +93,8 @@ package websocket
 //@   requires wfHandler(h) && respond != nil
 //@   requires joined(h) ==> h.currentSession.entityIDs.currentID < 4294967295
 //@   ensures wfHandler(h)
+//@   modifies {C03} h.currentSession.entityIDs.currentID, contents(h.currentSession.entityIDs.reusableIDs), contents(h.currentSession.entities), h.currentParticipant.entityIDs, contents(h.currentParticipant.entityIDs), all ghost.*
+//@   allocates
 //@   behaviour undecodable:
 //@     assumes !decode_ok(msg)
 //@     ensures {C04} result != nil && unchanged_world()
@@ -117,6 +124,8 @@ package websocket
 //@   let id = decoded(msg, hagallpb.EntityUpdatePose).EntityId
 //@   requires wfHandler(h)
 //@   ensures wfHandler(h)
+//@   modifies {C03} h.currentSession.entities[decoded(msg, hagallpb.EntityUpdatePose).EntityId].pose, all ghost.*
+//@   allocates
 //@   behaviour undecodable:
 //@     assumes !decode_ok(msg)
 //@     ensures result != nil && unchanged_world()
@@ -154,6 +163,8 @@ package websocket
 //@   requires wfHandler(h) && respond != nil
 //@   ensures wfHandler(h)
 //@   ensures unchanged_world()
+//@   modifies {C03} all ghost.*
+//@   allocates
 //@   behaviour undecodable:
 //@     assumes !decode_ok(msg)
 //@     ensures result != nil
@@ -189,6 +200,8 @@ package websocket
 //@   requires wfHandler(h) && respond != nil
 //@   requires joined(h) ==> h.currentSession.entityComponents.ids.currentID < 4294967295
 //@   ensures wfHandler(h)
+//@   modifies {C03} h.currentSession.entityComponents.ids.currentID, contents(h.currentSession.entityComponents.ids.reusableIDs), contents(h.currentSession.entityComponents.nameIndex), contents(h.currentSession.entityComponents.idIndex), all ghost.*
+//@   allocates
 //@   behaviour undecodable:
 //@     assumes !decode_ok(msg)
 //@     ensures result != nil && unchanged_world()
@@ -220,6 +233,8 @@ package websocket
 //@   let T = decoded(msg, hagallpb.EntityComponentTypeGetNameRequest).EntityComponentTypeId
 //@   requires wfHandler(h) && respond != nil
 //@   ensures unchanged_world()
+//@   modifies {C03} all ghost.*
+//@   allocates
 //@   behaviour undecodable:
 //@     assumes !decode_ok(msg)
 //@     ensures result != nil
@@ -250,6 +265,8 @@ package websocket
 //@   let N = decoded(msg, hagallpb.EntityComponentTypeGetIdRequest).EntityComponentTypeName
 //@   requires wfHandler(h) && respond != nil
 //@   ensures unchanged_world()
+//@   modifies {C03} all ghost.*
+//@   allocates
 //@   behaviour undecodable:
 //@     assumes !decode_ok(msg)
 //@     ensures result != nil
@@ -283,6 +300,8 @@ package websocket
 //@   let E = decoded(msg, hagallpb.EntityComponentAddRequest).EntityId
 //@   requires wfHandler(h) && respond != nil
 //@   ensures wfHandler(h)
+//@   modifies {C03} contents(h.currentSession.entityComponents.entityComponents), contents(h.currentSession.entityComponents.entityComponents[decoded(msg, hagallpb.EntityComponentAddRequest).EntityComponentTypeId]), all ghost.*
+//@   allocates
 //@   behaviour undecodable:
 //@     assumes !decode_ok(msg)
 //@     ensures result != nil && unchanged_world()
@@ -325,6 +344,8 @@ package websocket
 //@   let E = decoded(msg, hagallpb.EntityComponentDeleteRequest).EntityId
 //@   requires wfHandler(h) && respond != nil
 //@   ensures wfHandler(h)
+//@   modifies {C03} contents(h.currentSession.entityComponents.entityComponents[decoded(msg, hagallpb.EntityComponentDeleteRequest).EntityComponentTypeId]), all ghost.*
+//@   allocates
 //@   behaviour undecodable:
 //@     assumes !decode_ok(msg)
 //@     ensures result != nil && unchanged_world()
@@ -363,6 +384,8 @@ package websocket
 //@   let E = decoded(msg, hagallpb.EntityComponentUpdate).EntityId
 //@   requires wfHandler(h)
 //@   ensures wfHandler(h)
+//@   modifies {C03} contents(h.currentSession.entityComponents.entityComponents[decoded(msg, hagallpb.EntityComponentUpdate).EntityComponentTypeId]), all ghost.*
+//@   allocates
 //@   behaviour undecodable:
 //@     assumes !decode_ok(msg)
 //@     ensures result != nil && unchanged_world()
@@ -397,6 +420,8 @@ package websocket
 //@   let T = decoded(msg, hagallpb.EntityComponentListRequest).EntityComponentTypeId
 //@   requires wfHandler(h) && respond != nil
 //@   ensures unchanged_world()
+//@   modifies {C03} all ghost.*
+//@   allocates
 //@   behaviour undecodable:
 //@     assumes !decode_ok(msg)
 //@     ensures result != nil
@@ -424,6 +449,8 @@ package websocket
 //@   let T = decoded(msg, hagallpb.EntityComponentTypeSubscribeRequest).EntityComponentTypeId
 //@   requires wfHandler(h) && respond != nil
 //@   ensures wfHandler(h)
+//@   modifies {C03} contents(h.currentSession.entityComponents.subscriptions), contents(h.currentSession.entityComponents.subscriptions[decoded(msg, hagallpb.EntityComponentTypeSubscribeRequest).EntityComponentTypeId]), all ghost.*
+//@   allocates
 //@   behaviour undecodable:
 //@     assumes !decode_ok(msg)
 //@     ensures result != nil && unchanged_world()
@@ -456,6 +483,8 @@ package websocket
 //@   let T = decoded(msg, hagallpb.EntityComponentTypeUnsubscribeRequest).EntityComponentTypeId
 //@   requires wfHandler(h) && respond != nil
 //@   ensures wfHandler(h)
+//@   modifies {C03} contents(h.currentSession.entityComponents.subscriptions[decoded(msg, hagallpb.EntityComponentTypeUnsubscribeRequest).EntityComponentTypeId]), all ghost.*
+//@   allocates
 //@   behaviour undecodable:
 //@     assumes !decode_ok(msg)
 //@     ensures result != nil && unchanged_world()
@@ -481,6 +510,8 @@ package websocket
 //@   let req = decoded(msg, hagallpb.ReceiptRequest)
 //@   requires respond != nil
 //@   ensures unchanged_world()
+//@   modifies {C03} all ghost.*, all chan.*
+//@   allocates
 //@   behaviour undecodable:
 //@     assumes !decode_ok(msg)
 //@     ensures result != nil
@@ -619,7 +650,11 @@ package websocket
 //@     ensures {C10,C05} h.currentParticipant.ID == old(T.participantIDs.currentID) + 1 && !old((T.participantIDs.currentID + 1) in T.participants) && member(T, h.currentParticipant) && h.currentParticipant.Responder == respond && fresh(h.currentParticipant)
 //@     ensures {C07} forall p: uint32 :: p != h.currentParticipant.ID ==> ((p in T.participants) <==> old(p in T.participants)) && (p in T.participants ==> T.participants[p] == old(T.participants[p]))
 //@     ensures {C07} same_contents(T.entities) && forall t: uint32, e: uint32 :: (hasComp(T.entityComponents, t, e) <==> old(hasComp(T.entityComponents, t, e)))
-//@     emits {C04,C02} [send(respond, hagallpb.ParticipantJoinResponse{Type: hagallpb.MsgType_MSG_TYPE_PARTICIPANT_JOIN_RESPONSE, RequestId: req.RequestId, SessionId: sid, SessionUuid: T.SessionUUID, ParticipantId: h.currentParticipant.ID}); when !flag(h.FeatureFlags, featureflag.FlagDisableSessionState) =>> send(respond, hagallpb.SessionState{Type: hagallpb.MsgType_MSG_TYPE_SESSION_STATE}); when !flag(h.FeatureFlags, featureflag.FlagDisableParticipantJoinBroadcast) =>> Broadcast(T, h.currentParticipant, hagallpb.ParticipantJoinBroadcast{Type: hagallpb.MsgType_MSG_TYPE_PARTICIPANT_JOIN_BROADCAST, OriginTimestamp: req.Timestamp, ParticipantId: h.currentParticipant.ID})]
+//@     ensures {C01} !flag(h.FeatureFlags, featureflag.FlagDisableSessionState) ==> len(PS) == len(T.participants) && (forall j: int :: 0 <= j && j < len(PS) ==> PS[j] != nil && PS[j].Id in T.participants) && (forall k: uint32 :: k in T.participants ==> exists j: int :: 0 <= j && j < len(PS) && PS[j].Id == k)
+//@     ensures {C01} !flag(h.FeatureFlags, featureflag.FlagDisableSessionState) ==> len(ES) == len(T.entities) && (forall k: uint32 :: k in T.entities ==> exists j: int :: 0 <= j && j < len(ES) && ES[j].Id == k)
+//@     ensures {C01} !flag(h.FeatureFlags, featureflag.FlagDisableSessionState) ==> (forall j: int :: 0 <= j && j < len(ES) ==> ES[j] != nil && ES[j].Id in T.entities && ES[j].ParticipantId == T.entities[ES[j].Id].ParticipantID && ES[j].Flag == T.entities[ES[j].Id].Flag && ES[j].Pose != nil && ES[j].Pose.Px == T.entities[ES[j].Id].pose.PX && ES[j].Pose.Py == T.entities[ES[j].Id].pose.PY && ES[j].Pose.Pz == T.entities[ES[j].Id].pose.PZ && ES[j].Pose.Rx == T.entities[ES[j].Id].pose.RX && ES[j].Pose.Ry == T.entities[ES[j].Id].pose.RY && ES[j].Pose.Rz == T.entities[ES[j].Id].pose.RZ && ES[j].Pose.Rw == T.entities[ES[j].Id].pose.RW)
+//@     ensures {C01} !flag(h.FeatureFlags, featureflag.FlagDisableSessionState) ==> (forall j: int :: 0 <= j && j < len(CS) ==> CS[j] != nil && hasComp(T.entityComponents, CS[j].EntityComponentTypeId, CS[j].EntityId) && compAt(T.entityComponents, CS[j].EntityComponentTypeId, CS[j].EntityId) == CS[j]) && (forall t: uint32, e: uint32 :: hasComp(T.entityComponents, t, e) ==> exists j: int :: 0 <= j && j < len(CS) && CS[j] == compAt(T.entityComponents, t, e))
+//@     emits {C04,C02} [send(respond, hagallpb.ParticipantJoinResponse{Type: hagallpb.MsgType_MSG_TYPE_PARTICIPANT_JOIN_RESPONSE, RequestId: req.RequestId, SessionId: sid, SessionUuid: T.SessionUUID, ParticipantId: h.currentParticipant.ID}); when !flag(h.FeatureFlags, featureflag.FlagDisableSessionState) =>> send(respond, hagallpb.SessionState{Type: hagallpb.MsgType_MSG_TYPE_SESSION_STATE, Participants: bind(PS), Entities: bind(ES), EntityComponents: bind(CS)}); when !flag(h.FeatureFlags, featureflag.FlagDisableParticipantJoinBroadcast) =>> Broadcast(T, h.currentParticipant, hagallpb.ParticipantJoinBroadcast{Type: hagallpb.MsgType_MSG_TYPE_PARTICIPANT_JOIN_BROADCAST, OriginTimestamp: req.Timestamp, ParticipantId: h.currentParticipant.ID})]
 //@   behaviour switch:
 //@     assumes decode_ok(msg) && !already && joined(h) && (sid == "" || found)
 //@     ensures {C04} result == nil && joined(h)
@@ -901,6 +936,8 @@ package websocket
 //@   let P = h.currentParticipant
 //@   requires wfHandler(h) && respond != nil
 //@   requires h.currentParticipant != nil ==> h.currentParticipant.SignedLatency != nil
+//@   modifies {C03} all models.SignedLatency.*, all ghost.*
+//@   allocates
 //@   behaviour undecodable:
 //@     assumes !decode_ok(msg)
 //@     ensures result != nil && unchanged_world()
@@ -930,6 +967,8 @@ package websocket
 //@   let P = h.currentParticipant
 //@   requires wfHandler(h) && respond != nil
 //@   requires h.currentParticipant != nil ==> h.currentParticipant.SignedLatency != nil && (req.RequestId in h.currentParticipant.SignedLatency.PingRequests ==> h.currentParticipant.SignedLatency.sender != nil) && len(h.currentParticipant.SignedLatency.PingRequests) < 4294967296 && forall k: uint32 :: pending(h.currentParticipant.SignedLatency, k) ==> h.currentParticipant.SignedLatency.Iteration >= 1
+//@   modifies {C03} all models.SignedLatency.*, all ghost.*
+//@   allocates
 //@   behaviour undecodable:
 //@     assumes !decode_ok(msg)
 //@     ensures result != nil && unchanged_world()
